@@ -3,10 +3,10 @@
    getTenantShardCached) over the shared ketama ring model. Section hashes,
    math/rand positions (seeded by md5 of tenant and zone) and filepath.Match
    results are arbitrary data of the statements. *)
-From Coq Require Import ZArith List Bool Arith.
+From Coq Require Import ZArith List Bool Arith Permutation.
 Import ListNotations.
 From Verif Require Import Lib.Corr Lib.Hashring_Ketama Gen.C21 Model.C21 Proofs.C21.
-From Verif Require Model.C18.
+From Verif Require Model.C18 Proofs.C18_Order.
 Close Scope Z_scope.
 
 (* Stable, cached or not: for ANY eviction policy (the cache may drop any
@@ -75,6 +75,20 @@ Theorem C21_replicas_inside_shard : forall (nodes : list nat) sub_eps rf v a,
   (NoDup nodes -> NoDup (map (fun i => nth i nodes 0) a)).
 Proof. exact answers_inside_shard. Qed.
 Print Assumptions C21_replicas_inside_shard.
+
+(* getTenantShard visits the zones in Go's map iteration order, so finalNodes
+   — the endpoint list the sub-ring is built from — comes in an unspecified order.
+   This cannot be observed: for every permutation of that list the sub-ring
+   answers every lookup with the same nodes (collision-free section hashes). *)
+Theorem C21_zone_iteration_order_irrelevant : forall sub_eps perm,
+  Permutation perm (seq 0 (length sub_eps)) ->
+  NoDup (map s_hash (sections_of 0 sub_eps)) ->
+  forall rf v, sections_of 0 sub_eps <> [] ->
+  option_map (map (fun i => nth i perm 0))
+    (Model.C18.ketama_answers (Model.C18.permute (0%Z, []) sub_eps perm) rf v)
+  = Model.C18.ketama_answers sub_eps rf v.
+Proof. exact Proofs.C18_Order.ketama_answers_perm. Qed.
+Print Assumptions C21_zone_iteration_order_irrelevant.
 
 (* Tie T: the comparison handed to sort.Search in getTenantShard, read from the
    source, is "section hash >= random position", as in the model's ring_index. *)
